@@ -432,34 +432,75 @@ Proof.
   split; [exact Hinit|]. unfold STV.run_stv. rewrite mbind_mlift, Hinit. reflexivity.
 Qed.
 
+(* all-integral weights, as a proposition *)
+Lemma forallb_integral_false_iff : forall bs : list ballot,
+  forallb (fun b => is_integral (wt b)) bs = false <->
+  exists b, In b bs /\ is_integral (wt b) = false.
+Proof.
+  intros bs. split.
+  - intros H. induction bs as [|a l IH]; [discriminate|]. cbn [forallb] in H.
+    destruct (is_integral (wt a)) eqn:Ha.
+    + destruct (IH H) as (b & Hb & Hn). exists b. split; [right; exact Hb|exact Hn].
+    + exists a. split; [left; reflexivity|exact Ha].
+  - intros (b & Hb & Hn). destruct (forallb (fun b => is_integral (wt b)) bs) eqn:E; [|reflexivity].
+    rewrite forallb_forall in E. rewrite (E b Hb) in Hn. discriminate.
+Qed.
+
 Theorem c20_m_range_proof : forall cfg (p : profile),
   stv_validate p = inl tt ->
+  (stv_init cfg p = inr EType <->
+     s_transfer cfg = TRandom /\ exists b, In b (ballots p) /\ is_integral (wt b) = false) /\
   (stv_init cfg p = inr EValue <->
+     ~ (s_transfer cfg = TRandom /\ exists b, In b (ballots p) /\ is_integral (wt b) = false) /\
      (s_m cfg <= 0 \/ Z.of_nat (length (cands p)) < s_m cfg \/ s_quota cfg = QBad)%Z) /\
-  (forall e, stv_init cfg p = inr e -> e = EValue) /\
-  (stv_init cfg p = inr EValue -> forall s, run_stv cfg p s = inr EValue) /\
-  ((1 <= s_m cfg <= Z.of_nat (length (cands p)))%Z -> s_quota cfg <> QBad ->
+  (forall e, stv_init cfg p = inr e -> e = EType \/ e = EValue) /\
+  (forall e, stv_init cfg p = inr e -> forall s, run_stv cfg p s = inr e) /\
+  (~ (s_transfer cfg = TRandom /\ exists b, In b (ballots p) /\ is_integral (wt b) = false) ->
+   (1 <= s_m cfg <= Z.of_nat (length (cands p)))%Z -> s_quota cfg <> QBad ->
      exists t, stv_init cfg p = inl t).
 Proof.
-  intros cfg p Hv. unfold STV.stv_init. rewrite Hv. cbn [rbind].
+  intros cfg p Hv.
   assert (Hrun : forall e, stv_init cfg p = inr e -> forall s, run_stv cfg p s = inr e).
   { intros e H s. unfold STV.run_stv. rewrite mbind_mlift, H. reflexivity. }
-  unfold STV.stv_init in Hrun. rewrite Hv in Hrun. cbn [rbind] in Hrun.
+  assert (Hchk : is_trandom (s_transfer cfg) &&
+                 negb (forallb (fun b => is_integral (wt b)) (ballots p)) = true <->
+                 s_transfer cfg = TRandom /\
+                 exists b, In b (ballots p) /\ is_integral (wt b) = false).
+  { rewrite andb_true_iff, negb_true_iff, forallb_integral_false_iff.
+    split; intros [H1 H2]; (split; [|exact H2]).
+    - destruct (s_transfer cfg); try discriminate. reflexivity.
+    - rewrite H1. reflexivity. }
+  unfold STV.stv_init in *. rewrite Hv in *. cbn [rbind] in *.
+  destruct (is_trandom (s_transfer cfg) &&
+            negb (forallb (fun b => is_integral (wt b)) (ballots p))) eqn:Hc.
+  { assert (Hn := proj1 Hchk eq_refl).
+    split; [split; [intros _; exact Hn|reflexivity]|].
+    split; [split; [discriminate|intros [H _]; contradiction]|].
+    split; [intros e H; inversion H; left; reflexivity|]. split; [exact Hrun|].
+    intros H. contradiction. }
+  assert (Hn : ~ (s_transfer cfg = TRandom /\
+                  exists b, In b (ballots p) /\ is_integral (wt b) = false)).
+  { intros H. apply Hchk in H. discriminate. }
   destruct (s_m cfg <=? 0)%Z eqn:H1; [apply Z.leb_le in H1|apply Z.leb_gt in H1]; cbn [orb] in *.
-  { split; [split; [intros _; left; exact H1|reflexivity]|].
-    split; [intros e H; inversion H; reflexivity|]. split; [apply Hrun|]. intros H. lia. }
+  { split; [split; [discriminate|intros H; contradiction]|].
+    split; [split; [intros _; split; [exact Hn|left; exact H1]|reflexivity]|].
+    split; [intros e H; inversion H; right; reflexivity|]. split; [exact Hrun|]. intros _ H. lia. }
   destruct (Z.of_nat (length (cands p)) <? s_m cfg)%Z eqn:H2;
     [apply Z.ltb_lt in H2|apply Z.ltb_ge in H2].
-  { split; [split; [intros _; right; left; exact H2|reflexivity]|].
-    split; [intros e H; inversion H; reflexivity|]. split; [apply Hrun|]. intros H. lia. }
+  { split; [split; [discriminate|intros H; contradiction]|].
+    split; [split; [intros _; split; [exact Hn|right; left; exact H2]|reflexivity]|].
+    split; [intros e H; inversion H; right; reflexivity|]. split; [exact Hrun|]. intros _ H. lia. }
   destruct (s_quota cfg) eqn:Hq; cbn [threshold] in *.
-  - split; [split; [discriminate|intros [H|[H|H]]; [lia|lia|discriminate]]|].
-    split; [discriminate|]. split; [discriminate|]. intros _ _. eexists. reflexivity.
-  - split; [split; [discriminate|intros [H|[H|H]]; [lia|lia|discriminate]]|].
-    split; [discriminate|]. split; [discriminate|]. intros _ _. eexists. reflexivity.
-  - split; [split; [intros _; right; right; reflexivity|reflexivity]|].
-    split; [intros e H; inversion H; reflexivity|]. split; [apply Hrun|].
-    intros _ H. contradiction H. reflexivity.
+  - split; [split; [discriminate|intros H; contradiction]|].
+    split; [split; [discriminate|intros [_ [H|[H|H]]]; [lia|lia|discriminate]]|].
+    split; [discriminate|]. split; [exact Hrun|]. intros _ _ _. eexists. reflexivity.
+  - split; [split; [discriminate|intros H; contradiction]|].
+    split; [split; [discriminate|intros [_ [H|[H|H]]]; [lia|lia|discriminate]]|].
+    split; [discriminate|]. split; [exact Hrun|]. intros _ _ _. eexists. reflexivity.
+  - split; [split; [discriminate|intros H; contradiction]|].
+    split; [split; [intros _; split; [exact Hn|right; right; reflexivity]|reflexivity]|].
+    split; [intros e H; inversion H; right; reflexivity|]. split; [exact Hrun|].
+    intros _ _ H. contradiction H. reflexivity.
 Qed.
 
 (* ---------- V3: PluralityVeto ---------- *)
